@@ -128,4 +128,20 @@ def neg_agg_chain(rng):
     return 'neg_agg_chain', prog, ['edge'], inputs
 
 
-ALL = [tc, sp_count, funnel_rel, funnel_lat, neg_agg_chain]
+def lat_contention(rng):
+    """every input row improves the same K lattice keys: workers constantly join different values into the same rows
+    (atomicity of the read-join-write on an existing row); the lattice type passes through perturbation points"""
+    nk = rng.choice([3, 16, 64])
+    prog = Program([Rel('a', [T.I32]), Rel('best', [T.I32, T.SLOWMAX], is_lat=True), Rel('lo', [T.I32, DUALI], is_lat=True), Rel('top', [T.I32])],
+                   [Rule([Head('best', [V('k'), Wrap('vmon::val::SlowMax(%s)', V('x'))]), Head('lo', [V('k'), Dual(V('x'))])],
+                         [Clause('a', [AVar('x')]), For('k', Range(K(0), K(nk)))])] +
+                   [Rule([Head('top', [V('k')])], [Clause('best', [AVar('k'), AVar('v')], [If(Cmp('>=', Wrap('%s.0', V('v')), K(100)))])])])
+
+    def inputs(rng):
+        n = rng.choice([40, 300, 1500])
+        vals = rng.sample(range(0, 5000), n)
+        return [('a', (v,)) for v in vals]
+    return 'lat_contention', prog, ['a'], inputs
+
+
+ALL = [tc, sp_count, funnel_rel, funnel_lat, neg_agg_chain, lat_contention]
